@@ -807,6 +807,44 @@ func (env *Env) elabCall(x ECall) (Val, error) {
 			return Val{T: app("Str", "schr", v.T), GoT: types.Typ[types.String]}, nil
 		}
 		return v, nil
+	case "samearr": // two slices share their backing array
+		a, err := env.elab(x.Args[0])
+		if err != nil {
+			return Val{}, err
+		}
+		b, err := env.elab(x.Args[1])
+		if err != nil {
+			return Val{}, err
+		}
+		return Val{T: eq(app("Int", "s_arr", a.T), app("Int", "s_arr", b.T))}, nil
+	case "framearr": // frame: every backing array other than that of the given (old) slice is unchanged since the old state
+		if env.old == nil || env.st == nil {
+			return Val{}, fmt.Errorf("framearr needs old and current state")
+		}
+		a, err := env.elab(x.Args[0])
+		if err != nil {
+			return Val{}, err
+		}
+		u, ok := a.GoT.Underlying().(*types.Slice)
+		if !ok {
+			return Val{}, fmt.Errorf("framearr of non-slice")
+		}
+		comp, sort := elemComp(u.Elem()), elemSort(P, u.Elem())
+		h0, h1 := env.old.getHeap(P, comp, sort), env.st.getHeap(P, comp, sort)
+		return Val{T: Term{fmt.Sprintf("(forall ((fa Int)) (! (=> (and (not (= fa (s_arr %s))) (< fa %s)) (= (select %s fa) (select %s fa))) :pattern ((select %s fa))))", a.T.S, env.old.next.S, h1.S, h0.S, h1.S), "Bool"}}, nil
+	case "visited": // map-range ghost: key already produced by the enclosing range-over-map loop
+		if env.fx == nil || env.loop == nil || env.loop.rangeIt == nil {
+			return Val{}, fmt.Errorf("visited() outside a range-over-map loop clause")
+		}
+		it, ok := env.st.iters[env.loop.rangeIt]
+		if !ok || !strings.HasPrefix(it.Sort, "(Array") {
+			return Val{}, fmt.Errorf("visited(): no map iterator state")
+		}
+		k, err := env.elab(x.Args[0])
+		if err != nil {
+			return Val{}, err
+		}
+		return Val{T: app("Bool", "select", it, k.T)}, nil
 	case "has": // map membership
 		m, err := env.elab(x.Args[0])
 		if err != nil {
